@@ -189,7 +189,7 @@ func c20evalParse(s string) (*Violation, string) {
 	return nil, ""
 }
 
-var c20alphabet = []string{"0", "1", "5", "9", ".", "-", "+", "h", "m", "s", "n", "u", "µ", "d", " ", "x",
+var c20alphabet = []string{"0", "1", "5", "9", ".", "-", "+", "h", "m", "s", "n", "u", "µ", "d", " ", "x", "\u03bc", "\xff", "\xc3", "\xe2\x82",
 	"9223372036854775807", "9223372036854775808", "2562047", "106751", "106752"}
 
 func init() {
